@@ -945,8 +945,18 @@ def distance_matrix_fast(s, max_dist=None, use_pruning=False, max_length_diff=No
 
 def warping_path(from_s, to_s, include_distance=False, use_ndim=False, **kwargs):
     """Compute warping path between two sequences."""
-    dist, paths = warping_paths(from_s, to_s, use_ndim=use_ndim, **kwargs)
-    path = best_path(paths)
+    s = DTWSettings(use_ndim=use_ndim, **{k: v for k, v in kwargs.items()
+                                          if k not in ('psi_neg', 'keep_int_repr')})
+    if s.adj_penalty and not s.use_c and not kwargs.get('keep_int_repr', False):
+        # The penalty is needed to trace back the path and is only meaningful in the internal
+        # representation of the warping paths matrix (see best_path).
+        dist, paths = warping_paths(from_s, to_s, use_ndim=use_ndim, keep_int_repr=True, **kwargs)
+        path = best_path(paths, penalty=s.adj_penalty)
+        _, result_fn, _ = innerdistance.inner_dist_fns(s.inner_dist, use_ndim=use_ndim)
+        dist = result_fn(dist)
+    else:
+        dist, paths = warping_paths(from_s, to_s, use_ndim=use_ndim, **kwargs)
+        path = best_path(paths)
     if include_distance:
         return path, dist
     return path
